@@ -414,6 +414,26 @@ pub fn c05_tree(
 }
 
 /// C08 (iii)/(iv): callback accounting and no action inside an attempt that can be undone.
+/// C08: a rule node left half-open in the returned tree - an `error` placeholder without children that no
+/// create callback announced. Only an aborted attempt leaves such a node behind, and only a `&` (return)
+/// can legitimately produce an empty announced error node, so the caller applies this to grammars without `&`.
+pub fn c08_half_open(obs: &Obs, rule_names: &[&str]) -> Vec<Viol> {
+    let mut out = vec![];
+    for (i, n) in obs.nodes.iter().enumerate() {
+        if let crate::ONode::Rule(k, 0) = n {
+            if rule_names[*k as usize] == "error" {
+                out.push(v(
+                    "C08",
+                    "half-open-node",
+                    format!("the returned tree contains an empty `error` node at {i}: a rule was left half-open as if an attempt had been abandoned, after the ordered choice was over"),
+                ));
+                break;
+            }
+        }
+    }
+    out
+}
+
 pub fn c08_callbacks(obs: &Obs, rule_names: &[&str]) -> Vec<Viol> {
     let mut out = vec![];
     let mut balance: std::collections::BTreeMap<&str, i64> = Default::default();
